@@ -181,8 +181,8 @@ def groupOf (d : ClassDiagram) (r : Rel) : Option SGroup :=
 
 /-- `mk_component(bp_model, c_c, derived_attributes)` -/
 def extract (d : ClassDiagram) (comp : Option Nat) (drv : Bool) : Schema :=
-  { classes := (d.classes.filter (fun c => inScope d.containers comp c.parent)).map (classOf d drv),
-    groups := (d.rels.filter (fun r => inScope d.containers comp r.parent)).filterMap (groupOf d) }
+  { classes := (d.classes.filter (fun c => inScope d.containers d.pkgrefs comp c.parent)).map (classOf d drv),
+    groups := (d.rels.filter (fun r => inScope d.containers d.pkgrefs comp r.parent)).filterMap (groupOf d) }
 
 /-! ### what the calls above do when a definition is impossible
 
@@ -239,7 +239,7 @@ def resolvedRel (d : ClassDiagram) (r : Rel) : Bool :=
   | .derived => true
 
 def resolvedIn (d : ClassDiagram) (comp : Option Nat) : Bool :=
-  (d.rels.filter (fun r => inScope d.containers comp r.parent)).all (resolvedRel d)
+  (d.rels.filter (fun r => inScope d.containers d.pkgrefs comp r.parent)).all (resolvedRel d)
 
 inductive BuildOutcome where
   | ok (s : Schema)
